@@ -53,11 +53,14 @@ pub struct Checks {
     pub suffixes: bool,
     /// C15: an accepted value re-encodes with minimal integer heads (output is deterministic)
     pub det_output: bool,
+    /// C15: the re-encoding of an accepted input has the same data-model content as the input
+    /// (maps modulo entry order); only meaningful for inputs built so that nothing is omitted
+    pub same_item: bool,
 }
 
 impl Checks {
-    pub const IFF: Checks = Checks { iff: true, kind_dup: false, kind_range: false, kind_extraneous: false, fixed_point: false, layers: false, prefixes: false, suffixes: false, det_output: false };
-    pub const NONE: Checks = Checks { iff: false, kind_dup: false, kind_range: false, kind_extraneous: false, fixed_point: false, layers: false, prefixes: false, suffixes: false, det_output: false };
+    pub const IFF: Checks = Checks { iff: true, kind_dup: false, kind_range: false, kind_extraneous: false, fixed_point: false, layers: false, prefixes: false, suffixes: false, det_output: false, same_item: false };
+    pub const NONE: Checks = Checks { iff: false, kind_dup: false, kind_range: false, kind_extraneous: false, fixed_point: false, layers: false, prefixes: false, suffixes: false, det_output: false, same_item: false };
 }
 
 pub fn ty_name(t: Ty) -> String {
@@ -248,6 +251,7 @@ pub fn check_decode(case: &Case, checks: &Checks, l: &mut Local) {
                                         l.viol(vi);
                                     }
                                 }
+                                (true, Some(Verdict::Unspecified(_))) => l.count("ref.undefined_for_nil_in_unspecified_input"),
                                 _ => l.viol(case.viol(
                                     "accepted-invalid",
                                     faults[0].rule,
@@ -301,6 +305,21 @@ pub fn check_decode(case: &Case, checks: &Checks, l: &mut Local) {
         }
     };
 
+    if checks.same_item {
+        if let (ReadAll::One(e), Outcome::Ok(out)) = (read_all(case.bytes), v.to_vec()) {
+            let it = e.item();
+            if !it.has_bignum_tag() && !it.has_undefined() {
+                l.count("same_item.compared");
+                let ok = match read_exact(&out) {
+                    Ok(o) => refcose::eq_mod_map_order(&o.item(), &it),
+                    Err(_) => false,
+                };
+                if !ok {
+                    l.viol(case.viol("readback", "content-changed", format!("re-encoding with the content {:?}", it), hex(&out)));
+                }
+            }
+        }
+    }
     if checks.fixed_point || checks.det_output {
         fixed_point(case, v, checks, l);
     }
@@ -333,6 +352,22 @@ pub fn check_decode(case: &Case, checks: &Checks, l: &mut Local) {
 }
 
 fn fixed_point(case: &Case, v: &BoxSubj, checks: &Checks, l: &mut Local) {
+    let before = l.viols.len();
+    fixed_point_inner(case, v, checks, l);
+    if l.viols.len() > before {
+        // one known root cause gets its own fingerprint: a bignum tag over an indefinite-length
+        // byte string stays a tag on the first decode and becomes an integer on the second
+        if let ReadAll::One(e) = read_all(case.bytes) {
+            if e.has_bignum_over_indefinite() {
+                for vi in l.viols[before..].iter_mut() {
+                    vi.key = format!("{}:bignum-tag-over-indefinite-length-bstr", case.pid);
+                }
+            }
+        }
+    }
+}
+
+fn fixed_point_inner(case: &Case, v: &BoxSubj, checks: &Checks, l: &mut Local) {
     let d0 = v.debug();
     let b1 = match v.to_vec() {
         Outcome::Ok(b) => b,
